@@ -1117,7 +1117,13 @@ func (ex *Exec) step(st *State, fr *Frame, ins ssa.Instruction) bool {
 	case *ssa.Convert:
 		fr.Vals[x] = ex.convert(st, ex.val(fr, x.X, st), x.X.Type(), x.Type())
 	case *ssa.ChangeType:
-		fr.Vals[x] = ex.val(fr, x.X, st)
+		v := ex.val(fr, x.X, st)
+		if sv, ok := v.(StructV); ok {
+			// a struct value converted to another named type of the same shape carries its new type
+			sv.Typ = x.Type()
+			v = sv
+		}
+		fr.Vals[x] = v
 	case *ssa.ChangeInterface:
 		fr.Vals[x] = ex.val(fr, x.X, st)
 	case *ssa.MakeInterface:
@@ -1530,6 +1536,14 @@ func (ex *Exec) intBitop(op token.Token, a, b *Term, bits int, signed bool) *Ter
 		for _, p := range [][2]*Term{{a, b}, {b, a}} {
 			if p[1].IsConst() && p[1].Val.Sign() > 0 && new(big.Int).And(p[1].Val, new(big.Int).Sub(p[1].Val, big.NewInt(1))).Sign() == 0 {
 				return IMul(IModE(IDivE(p[0], IntBig(p[1].Val)), IntC(2)), IntBig(p[1].Val))
+			}
+		}
+	}
+	// x ^ 0xff..ff on an unsigned value of that width is the complement: (2^bits - 1) - x
+	if op == token.XOR && !signed {
+		for _, p := range [][2]*Term{{a, b}, {b, a}} {
+			if p[1].IsConst() && !p[0].IsConst() && p[1].Val.Cmp(new(big.Int).Sub(Pow2(bits), big.NewInt(1))) == 0 {
+				return ISub(p[1], p[0])
 			}
 		}
 	}
